@@ -80,6 +80,21 @@ CLAIMED = {
             "technique": "complete enumeration of a finite program family (header x configuration, header pairs) with the compiler/linker as oracle",
             "text": "Every header alone and every pair of headers in two TUs, in three configurations (TBB+MPI, TBB only, neither with poisoned third-party headers); finite space enumerated completely.",
             "note": "one toolchain (g++ 12, Boost 1.83, oneTBB 2021.8, OpenMPI)"},
+    "C03": {"level": "model_checking", "design_ref": "DESIGN.md section 3 C03, section 4.1, appendix A",
+            "technique": "stateless model checking of the real TBB entry points on a controllable oneTBB shim: complete per-call enumeration of parallel_reduce executions, "
+                         "deviation-bounded exploration of parallel_for / push_back / reduce schedules, ThreadSanitizer on a thread-per-leaf build, trace conformance against real oneTBB",
+            "text": "Every legal execution of each parallel_reduce call (dynamic programme over partitions, accumulation runs and join trees) and every parallel_for partition/order/push "
+                    "interleaving within the deviation bound is executed on the unmodified parmcb code for every graph x weighting of the bound, with the C01/C02 (exact) or C05/C06 "
+                    "(approximate) oracle on every execution; races are checked by TSan on the finest partition; the shim's grammar is validated against recorded traces of the installed runtime.",
+            "note": "trusted: the shim (~350 lines) as a model of oneTBB's contract, re-validated by conformance traces on each run; ORDER choices bounded (quick 1-2, thorough 2-3 deviations); "
+                    "memory-model effects below data races are out of scope"},
+    "C04": {"level": "model_checking", "design_ref": "DESIGN.md section 3 C04, section 4.2",
+            "technique": "stateless model checking of the real MPI entry points on a controllable Boost.MPI shim (rank threads under a baton scheduler, explicit deadlock states, all reduce "
+                         "combination orders, explorer-chosen per-rank heap layouts), with mpiexec conformance runs of the same sources on the real stack",
+            "text": "For every graph x weighting of the bound, every entry point and every communicator size in the tier's set (incl. sizes exceeding vertices/candidates), every execution within the "
+                    "deviation bound over per-rank pointer orders and nested TBB schedules, and every reduce outcome: all ranks return, rank 0 holds a minimum basis, others emit nothing.",
+            "note": "trusted: the vmpi shim as a model of the MPI collectives used (validated against real mpiexec runs: collective semantics and entry-point outcomes must lie in the model's set); "
+                    "P <= 7; layouts = relative order of edge-node addresses"},
 }
 for k in CLAIMED:
     ENGINES[0]["serves_properties"].append(k)
